@@ -71,12 +71,18 @@ REFINED = ["entry guards mirrored from the code and proved equivalent to the doc
            "(fbig_ulp_guard_sharp_partial: prec = 0, or infinite, or isize::MIN <= exp + digits - prec; every precision up to usize::MAX); "
            "fbig_ulp_guard_exact_class: on canonical moderate operands guard == documentation for all kinds IFF that hypothesis holds, and "
            "outside it the code returns where ExponentOverflow is documented (the class of finding float_precision_isize_cast as a theorem, "
-           "not only its witness); closed form fbig_ulp_guard_prec_bound_partial: precision <= 3*2^61 (Proofs/Panic/UlpSharp.lean)"]
+           "not only its witness); closed form fbig_ulp_guard_prec_bound_partial: precision <= 3*2^61 (Proofs/Panic/UlpSharp.lean)",
+           "round 8: Reduced / Reduced — `inv()` is no longer taken at its specification: link theorems by import of C13's inv_spec / "
+           "div_spec (Proofs/Panic/InvLink.lean): reduced_div_guard_is_c13s (guardMSame passes IFF C13's modelled inv returns Some; says "
+           "NonInvertible IFF the modelled `/` ends in NonInvertible; passes IFF the modelled `/` returns — every W >= 1, every accepted "
+           "modulus incl. multi-word rings, every dividend/divisor) and reduced_div_documented_is_c13s (the same on the documentation, "
+           "modulus != 1; DivideByZero documented IFF C13's constructor refuses the modulus)"]
 FRONTIER = ["reservations only partly tied to the documentation: pow of an EVEN base with odd part > 1 (second-stage `<<` request depends "
             "on the value odd^e: `guardPow = none`, decided by correspondence); pow of a >= 3-word base (no reservation exists in the "
             "code: finding, counterexample theorem); the converse of (S1) is false in the band between reservation and result size "
             "(counterexample theorems) — these are facts about the code, not gaps of the model",
-            "the overflow test of exp beyond |x| = 2^61 (transcendental threshold), Reduced::inv (taken at its specification; refined in C13)",
+            "the overflow test of exp beyond |x| = 2^61 (transcendental threshold); Reduced::inv is linked to C13's modelled kernels since "
+            "round 8 (reduced_div_guard_is_c13s) — what stays open there is C13's own frontier (its mirrored kernels vs the compiled code)",
             "that the BODIES behind the guards never panic / always terminate is proved only for the modelled loops (farey, ln, exp, "
             "iacoth, ilog fixing, remove stage 1, pow bit loop, max_exp_in_word loop invariant); Newton root iteration and the gcd loops "
             "have fuel-bound theorems in C12's model, not repeated here; everything else (multiplication, division, parsing, formatting "
@@ -151,6 +157,8 @@ THEOREMS += ["Dashu.Props.C16Gen." + t for t in (
 THEOREMS += ["Dashu.Props.C16.fbig_powi_precision_fits", "Dashu.Props.C16.fbig_powi_precision_counterexample"]
 # round 7: FBig::ulp at every precision up to usize::MAX (hypothesis = the documented underflow clause is silent; exact class)
 THEOREMS += ["Dashu.Props.C16." + t for t in ("fbig_ulp_guard_sharp_partial", "fbig_ulp_guard_exact_class", "fbig_ulp_guard_prec_bound_partial")]
+# round 8: link to C13 — the NonInvertible guard of Reduced / Reduced decides what C13's modelled inv / div do
+THEOREMS += ["Dashu.Props.C16." + t for t in ("reduced_div_guard_is_c13s", "reduced_div_documented_is_c13s")]
 
 M = 2 ** 64 - 1
 IMAX = 2 ** 63 - 1
